@@ -48,7 +48,10 @@ async_worker_t* async_worker_create(async_worker_proc_t proc, void* context, siz
     
     worker->proc = proc;
     worker->context = context;
-    worker->state = ASYNC_WORKER_STOPPED;
+    /* The worker counts as running from the moment it is created: async_worker_join() with a
+     * timeout polls this field, and must not take the time before the new thread is scheduled
+     * for "has exited already" (it would go on to a pthread_join() that has no timeout). */
+    worker->state = ASYNC_WORKER_RUNNING;
     worker->thread_created = false;
     
     if (!platform_event_init(&worker->stop_event, true, false)) {
